@@ -25,6 +25,16 @@ Plan gen_c06(uint64_t seed, int tier)
     {
       p.cfg["sink" + std::to_string(i) + "_type"] = 1; // real FileSink
       p.cfg["sink" + std::to_string(i) + "_notifier"] = Rng(seed ^ static_cast<uint64_t>(0x77 + i)).chance(1, 3) ? 1 : 0; // with FileEventNotifier callbacks
+      {
+        // one real file sink in three is a RotatingFileSink (size limit, sometimes minutely rotation on top): the destination
+        // is then the set of its files
+        Rng rr(seed ^ static_cast<uint64_t>(0x9907 + i));
+        if (rr.chance(1, 3))
+        {
+          p.cfg["sink" + std::to_string(i) + "_rotating"] = rr.pick<int64_t>({512, 700, 1024, 2048});
+          p.cfg["sink" + std::to_string(i) + "_rot_minutely"] = rr.chance(1, 4) ? 1 : 0;
+        }
+      }
     }
   }
   fix_timescale(p);
@@ -405,6 +415,17 @@ Verdict judge_c06(Plan const& p, History const& h, RunInfoLite const& ri)
   v.probes["cross_thread_statement_sink_pairs_checked"] = cross_checked;
   v.probes["cross_thread_first_statement_of_a_thread"] = first_stmt_cross;
   v.probes["file_sink_reads_checked"] = file_checked;
+  {
+    int64_t rot = 0;
+    for (auto const& e : h.ev)
+    {
+      if (e.type == EV_FILE_SNAP)
+      {
+        rot = std::max(rot, e.b);
+      }
+    }
+    v.probes["rotated_files_in_a_rotating_destination"] = static_cast<uint64_t>(rot);
+  }
   v.probes["cross_thread_pairs_excused_tsc_sync_tolerance"] = tsc_excused;
   uint64_t dropped = 0;
   for (auto const& kv : m.issued)
